@@ -177,6 +177,9 @@ class BaseFormOperatorDerivative(BaseFormDerivative, BaseFormOperator):
     # Set __repr__
     __repr__ = Operator.__repr__
 
+    # All data of this node is in its operands
+    _ufl_compute_hash_ = Operator._ufl_compute_hash_
+
     def argument_slots(self, outer_form=False):
         """Return a tuple of expressions containing argument and coefficient based expressions."""
         from ufl.algorithms.analysis import extract_arguments
